@@ -18,9 +18,13 @@ location and every fuel:
 * diagnostics: `PP.LineCol.C14_linecol_consistent` (C14) — `lineno/col/line` of any `loc ≤ len` are defined and
   mutually consistent — is the model-level content of "str(), line, lineno, col evaluate and agree with the string".
 
-PARTIAL with respect to the statement: *termination* is not a theorem (the model is total by construction and returns
-`hang` exactly where the real code loops — zero-width repetition bodies, excluded by the quantifier — or where the fuel
-ran out; no fuel bound is proved), and the bound `0 ≤ loc ≤ len+1` on exception locations is checked by the oracle on
+*Termination* is proved in `PPProofs/Props/C06Term.lean` for non-recursive grammars (well-founded node tables, fuel above
+the element's rank / height, under the property's own side condition that repetition bodies and ignorables do not match
+the empty string): `acyclic_terminates`, `acyclic_terminates_depth`, `parseString_terminates`, `scanString_terminates`,
+`acyclic_terminates_checked`.
+
+PARTIAL with respect to the statement: for recursive grammars (Forward cycles) termination is not a theorem (the model is
+total by construction and returns `hang` where the real code loops or where the fuel ran out), and the bound `0 ≤ loc ≤ len+1` on exception locations is checked by the oracle on
 the real code, as are KeyError/TypeError/AttributeError and every class outside the model (whole exported zoo).
 -/
 namespace PP.Parse
